@@ -171,8 +171,8 @@ class Walker:
             for f, before in (('x', v['y'] is not None), ('y', False)):
                 ps = []
                 self.positions(['Option', [['Box', [['Expression', []]]]]], v.get(f), ps)
-                if ps and before and not max(ps) < v['pos'] + 0 and min(ps) >= v['pos']:
-                    self.fail(n, 'x-before-op', min(ps), f'< {v["pos"]}')
+                if ps and before and not max(ps) < v['pos']:
+                    self.fail(n, 'x-before-op', max(ps), f'< {v["pos"]} (every token of the left operand before the operator)')
                 if ps and f == 'y' and not min(ps) > v['pos']:
                     self.fail(n, 'y-after-op', min(ps), f'> {v["pos"]}')
                 if ps and f == 'x' and v['y'] is None and not min(ps) > v['pos']:
